@@ -99,3 +99,8 @@ Definition parser_1100 (p : str) : result tpi :=
                 else Raise AssertionError
        | _, _, _ => Raise ValueError
        end.
+
+(* Command.put_weather_temp(dev, t) -> I|0002 (a faked outdoor sensor): 00 + the word + 01; parser_0002 (not from an HCW): hex_to_temp(payload[2:6]) *)
+Definition put_weather_payload (w : option Z) : str := lit "00" ++ hexN 4 (word_of_opt w) ++ lit "01".
+Definition parser_0002 (p : str) : result (tempv * str) :=
+  do t <- (if negb (Nat.eqb (List.length (slice 2 6 p)) 4) then Raise ValueError else hex_to_temp_s (slice 2 6 p)); Ok (t, skipn 6 p).
